@@ -24,6 +24,7 @@ PROP = {
         "Wm.RouterLife.cancel_winds_handlers_down", "Wm.RouterLife.runhandlers_nil_means_all_started",
         "Wm.RouterLife.runhandlers_error_is_retried", "Wm.RouterLife.other_handlers_keep_dispatching",
         "Wm.RouterLife.loop_tail_waits_for_nobody", "Wm.RouterLife.failed_run_leaves_running_open",
+        "Wm.RouterLife.close_signals_only_outside_runhandlers",
         "Wm.RouterLife.Old.started_before_stopfn_witness", "Wm.RouterLife.Old.watcher_lost_wakeup_witness",
     ],
     "tie_theorems": [],
@@ -37,7 +38,10 @@ PROP = {
             "Stop, wait Stopped, cancel Run ctx, Close, second Run} with 1..5 handlers (scripted subscribers whose Subscribe calls are "
             "counted; GoChannel for delivery right after Running()), handlers added before and after Run; Stop issued while RunHandlers is "
             "parked at runhandlers.started (right after Started() closed); a router started empty with the self-close watcher parked "
-            "before its select while the first handler is added; stop-one / stop-all / cancel families; a router started empty whose Run context is cancelled before the first AddHandler, or "
+            "before its select while the first handler is added; stop-one / stop-all / cancel families; 4-12 goroutines polling IsClosed() while both handlers are stopped / the Run context is "
+            "cancelled (the router must still close itself, Run return nil; 6 rounds, 14 thorough; child processes); Close arriving "
+            "while Run's RunHandlers is inside the slow second Subscribe of 2-3 handlers sharing one GoChannel (start-up must finish: "
+            "Running() closed, all Started() closed, then Run and Close return nil); a router started empty whose Run context is cancelled before the first AddHandler, or "
             "after AddHandler+RunHandlers while the watcher is parked before its select (4 rounds): the handler ends, the router must close "
             "itself and Run return nil; the failed-Subscribe scenarios run in child processes (a wrong handlersWg count panics in a router goroutine); a start-up in which one of three subscriptions is refused (Run returns the error, "
             "Running() must be found open, a second Run is refused, a later RunHandlers starts all three); a second Run issued while the "
